@@ -4,9 +4,11 @@ D1 k -> n-k on the Wilson and Wald summaries: the interval for n-k successes is 
    image 1 - (interval for k) with upper and lower one-sidedness exchanged, including the far
    ends 1 <-> 0:  lo_two(n-k) = 1 - hi_two(k);  lo_upper(n-k) = 1 - hi_lower(k), far ends 1/0.
 D2 the score-polynomial identity of C02 is re-asserted as the premise of the cited consequences.
-U (theorems about Wilson's formula, not decidable from code by this family): monotone in k,
-   strictly narrower with larger n, wider with the level, bounds within [0,1], midpoint
-   between k/n and 1/2.  They hold over the reals for the formula D2 pins down."""
+D3 the remaining clauses, decided for the code's own Wilson bounds by sign certificates over the reals
+   (wilson_theorems): bounds in [0,1]; midpoint between k/n and 1/2; finite bounds move outwards with the
+   critical value; width^2 strictly smaller on (t n, t k), t > 1; monotone in k via the implicit-function
+   premises (root of the score polynomial; same side of k/n and of the vertex).
+U: db/dk >= 0 on real k => monotone over integer steps, and quantile monotone in the level (C06 contract): cited."""
 from fractions import Fraction
 
 from .. import terms as T
@@ -33,6 +35,147 @@ def ok_interval(facts, nf, im, cm, fn, kind, kterm, dom):
     return dec, len(paths)
 
 
+POS = (Fraction(0), None, False, True)
+SPOS = (Fraction(0), None, True, True)
+NEG = (None, Fraction(0), True, False)
+SNEG = (None, Fraction(0), True, True)
+
+
+def wilson_theorems(chk, nf, label, sfx, where, kind, kname, zterm, lo, hi, lim=2, pid=None, clauses=None, emit=True):
+    """The remaining clauses of the statement, decided for the code's own bound expressions by sign
+    certificates over the reals (nf.decide_sign_sqrt): coefficient signs after shifting every variable to
+    its lower bound, square-root parts compared through their squares, with the case split m >= k / k >= m
+    (m = n - k failures) that makes the centre's side of k/n definite.  One obligation per clause and kind.
+      unit      0 <= bound <= 1
+      midpoint  (two-sided) (mid - k/n) * (1/2 - mid) >= 0
+      level     the finite bounds move outwards when the critical value grows (either sign of z)
+      larger-n  same proportion on t times the population, t > 1 (real): width^2 strictly smaller (two-sided),
+                finite bound moves towards k/n for z > 0 (one-sided)
+      monotone  premises of the implicit-function argument: the bound b is a root of the score polynomial
+                F(p; k) and (b - k/n) and (b - vertex) have the same sign, so db/dk = -F_k/F_p >= 0
+    """
+    from ..nf import decide_sign_sqrt, decide_sign
+    from ..meanci import crit_atoms
+    # the critical value as it occurs in the code's bounds (one inverse_cdf call, equal to zterm by normal form)
+    occ = set(crit_atoms(lo)) | set(crit_atoms(hi))
+    if len(occ) == 1 and nf.term_equal(list(occ)[0], zterm):
+        zterm = occ.pop()
+    Z, Dd, Uu, Ee, Mm = T.sym('z'), T.sym('d'), T.sym('u'), T.sym('e'), T.sym('m')
+    saved = set(nf.nonneg)
+    nf.nonneg.update(['m', 'e', 'd', 'u'])
+    cases = {'m>=k': (K, T.op('add', K, Ee)), 'k>=m': (T.op('add', Mm, Ee), Mm)}
+    base = {'k': (Fraction(lim), None, False, True), 'm': (Fraction(lim), None, False, True), 'e': POS}
+    finite = [b for b, use in ((lo, kind in ('two', 'upper')), (hi, kind in ('two', 'lower'))) if use]
+    names = [nm for nm, use in (('lower', kind in ('two', 'upper')), ('upper', kind in ('two', 'lower'))) if use]
+    zsigns = [('z>=0', POS)] if kind == 'two' else [('z>=0', POS), ('z<=0', NEG)]
+    res = {c: [] for c in ('unit', 'midpoint', 'level', 'larger-n', 'monotone', 'contains')}
+
+    def inst(b, kk, mm, zz=Z, t=None):
+        sub = {zterm: zz}
+        b = T.subst(b, sub)
+        if t is not None:
+            kk, mm = T.op('mul', kk, t), T.op('mul', mm, t)
+        return T.subst(b, {K: kk, N: T.op('add', kk, mm)})
+
+    def need(clause, what, rf, rg, accept, two_roots=True):
+        sg = decide_sign_sqrt(nf, rf, rg)
+        if sg not in accept:
+            res[clause].append('%s: no certificate (sign %s)' % (what, sg))
+    NN, NP = ('+', '0+', '0'), ('-', '0-', '0')
+    try:
+        one, half, two_ = nf.of_term(F1), nf.of_term(T.mk_flt(Fraction(1, 2))), nf.of_term(T.mk_flt(Fraction(2)))
+        for cname, (kk, mm) in cases.items():
+            prop = nf.div(nf.of_term(T.op('i2f', kk)), nf.of_term(T.op('i2f', T.op('add', kk, mm))))
+            for zn, zr in zsigns:
+                rg = dict(base)
+                rg['z'] = zr
+                for b, nm in zip(finite, names):
+                    B = nf.of_term(inst(b, kk, mm))
+                    need('unit', '%s bound >= 0 [%s, %s]' % (nm, cname, zn), B, rg, NN)
+                    need('unit', '%s bound <= 1 [%s, %s]' % (nm, cname, zn), nf.sub(one, B), rg, NN)
+                    # monotone in k: b - k/n and b - vertex have the same sign; vertex of F is (2k + z^2)/(2(n + z^2))
+                    zz = nf.of_term(Z)
+                    w = nf.mul(zz, zz)
+                    n_ = nf.of_term(T.op('i2f', T.op('add', kk, mm)))
+                    k_ = nf.of_term(T.op('i2f', kk))
+                    vertex = nf.div(nf.add(nf.mul(two_, k_), w), nf.mul(two_, nf.add(n_, w)))
+                    s1 = decide_sign_sqrt(nf, nf.sub(B, prop), rg)
+                    s2 = decide_sign_sqrt(nf, nf.sub(B, vertex), rg)
+                    if zr is POS and ((nm == 'lower' and s1 not in NP) or (nm == 'upper' and s1 not in NN)):
+                        res['contains'].append('%s bound is not certified on its side of k/n for z >= 0 [%s] (sign %s)' % (nm, cname, s1))
+                    if not ((s1 in NN and s2 in NN) or (s1 in NP and s2 in NP)):
+                        res['monotone'].append('%s bound: sides of k/n and of the vertex not certified equal [%s, %s] (%s, %s)' % (nm, cname, zn, s1, s2))
+                    # the bound is a root of the score polynomial for this z
+                    if not nf.is_zero(nf.of_term(T.subst(T.subst(score_poly(Z, T.subst(b, {zterm: Z})), {}), {K: kk, N: T.op('add', kk, mm)}))):
+                        res['monotone'].append('%s bound is not a root of the score polynomial [%s]' % (nm, cname))
+                # level: z -> z + d within one sign region (regions are closed at 0, so crossing 0 follows)
+                rgd = dict(rg)
+                rgd['d'] = POS
+                if zr is POS:
+                    z0, z1 = Z, T.op('add', Z, Dd)
+                else:
+                    z0, z1 = T.op('sub', Z, Dd), Z
+                for b, nm in zip(finite, names):
+                    B0, B1 = nf.of_term(inst(b, kk, mm, z0)), nf.of_term(inst(b, kk, mm, z1))
+                    if nm == 'lower':
+                        need('level', 'lower bound does not rise with z [%s, %s]' % (cname, zn), nf.sub(B0, B1), rgd, NN)
+                    else:
+                        need('level', 'upper bound does not fall with z [%s, %s]' % (cname, zn), nf.sub(B1, B0), rgd, NN)
+            # midpoint and larger population (z >= 0 / z > 0)
+            rg = dict(base)
+            rg['z'] = POS
+            if kind == 'two':
+                L_, H_ = nf.of_term(inst(lo, kk, mm)), nf.of_term(inst(hi, kk, mm))
+                mid = nf.div(nf.add(L_, H_), two_)
+                need('midpoint', 'midpoint between k/n and 1/2 [%s]' % cname, nf.mul(nf.sub(mid, prop), nf.sub(half, mid)), rg, NN)
+                tt = T.op('add', T.mk_flt(Fraction(1)), Uu)
+                rgt = dict(base)
+                rgt['z'] = SPOS
+                rgt['u'] = SPOS
+                Wd = nf.sub(H_, L_)
+                Lt, Ht = nf.of_term(inst(lo, kk, mm, Z, tt)), nf.of_term(inst(hi, kk, mm, Z, tt))
+                Wt = nf.sub(Ht, Lt)
+                sg = decide_sign(nf, nf.sub(nf.mul(Wd, Wd), nf.mul(Wt, Wt)), rgt)
+                if sg != '+':
+                    res['larger-n'].append('width^2(n,k) - width^2(tn,tk) > 0 not certified [%s] (sign %s)' % (cname, sg))
+                need('larger-n', 'width >= 0 [%s]' % cname, Wd, rg, NN)
+            else:
+                tt = T.op('add', T.mk_flt(Fraction(1)), Uu)
+                rgt = dict(base)
+                rgt['z'] = SPOS
+                rgt['u'] = SPOS
+                for b, nm in zip(finite, names):
+                    B0, Bt = nf.of_term(inst(b, kk, mm)), nf.of_term(inst(b, kk, mm, Z, tt))
+                    need('larger-n', '%s bound moves towards k/n on a larger population for z > 0 [%s]' % (nm, cname),
+                         nf.sub(Bt, B0) if nm == 'lower' else nf.sub(B0, Bt), rgt, NN)
+    except NotReal as e:
+        for c in res:
+            res[c].append('not a real formula: %s' % e)
+    finally:
+        nf.nonneg.clear()
+        nf.nonneg.update(saved)
+    texts = {'unit': 'the finite bounds lie in [0,1]',
+             'midpoint': 'the midpoint lies between k/n and 1/2',
+             'level': 'a larger critical value (higher level; quantile monotone by the C06 contract) moves every finite bound outwards',
+             'larger-n': 'the same proportion on a larger population gives a strictly narrower interval (two-sided: width; one-sided, level above 1/2: the finite bound moves towards k/n)',
+             'monotone': 'premises of db/dk >= 0: the bound is a root of the score polynomial and lies on the same side of k/n and of the vertex',
+             'contains': 'the interval contains the point estimate k/n (two-sided; one-sided at a level of at least 1/2)'}
+    n = 0
+    if not emit:
+        return res
+    for c, probs in res.items():
+        if c == 'midpoint' and kind != 'two':
+            continue
+        if clauses is not None and c not in clauses:
+            continue
+        if clauses is None and c == 'contains':
+            continue   # claimed by C10
+        chk.ob('%s:%s:%s:%s%s' % (pid or PID, c, label, kname, sfx), 'E4 sign', '%s(%s): %s (sign certificates over the reals on the accepted domain)' % (label, kname, texts[c]),
+               not probs, '; '.join(probs[:3]), where)
+        n += 1
+    return n
+
+
 def run(chk, ctx):
     for cfg in ctx.configs():
         run_cfg(chk, ctx.facts(cfg), cfg)
@@ -47,11 +190,37 @@ def run_cfg(chk, facts, cfg):
     nf = NF(nonneg=['n', 'k'])
     dom = mk_domain(nf)
     n_ok = 0
+    n_thm = 0
     for label, path in (('ci_wilson', 'proportion::ci_wilson'), ('ci_z_normal', 'proportion::ci_z_normal'), ('ci', 'proportion::ci')):
         fn = facts.free_fn(path)
         if not chk.anchor(path + sfx, fn):
             continue
         where = facts.loc(fn['id'])
+        # the mirror identity above is an identity of real-mode summaries; for the *domain* (which counts are accepted)
+        # it transfers to the floating-point code only if the guards over the counts are computed without rounding
+        try:
+            from ..exact import inexact_side
+            sx0, paths0 = summ(facts, fn, ['confidence', 'n', 'k'], [cm.value('two', L), None, None])
+            rounded = set()
+            nguards = 0
+            for p0 in paths0:
+                for atom, pol in p0.guard:
+                    if atom[0] != 'op' or atom[1] not in ('lt', 'le', 'eq') or len(atom[2]) != 2:
+                        continue
+                    names = set()
+                    T.walk(atom, lambda t: names.add(t[1]) if t[0] == 'sym' else None)
+                    calls = []
+                    T.walk(atom, lambda t: calls.append(t) if t[0] == 'call' else None)
+                    if calls or not names or not names <= {'n', 'k'}:
+                        continue
+                    nguards += 1
+                    b = inexact_side(atom)
+                    if b is not None:
+                        rounded.add('%s (rounded operand %s)' % (T.show(atom)[:80], T.show(b)[:50]))
+            chk.ob('%s:exact-domain:%s%s' % (PID, label, sfx), 'E9 exactness', '%s: the guards over the counts (%d) are computed without rounding, so the accepted domain is mirror-symmetric in floating point too' % (label, nguards),
+                   not rounded and nguards > 0, '; '.join(sorted(rounded)[:2]) or ('no guard over the counts found' if not nguards else ''), where)
+        except Unsupported as e:
+            chk.ob('%s:exact-domain:%s%s' % (PID, label, sfx), 'E9 exactness', label, None, 'undecided: %s' % e, where)
         for kind, kname in KINDS:
             key = '%s:mirror:%s:%s%s' % (PID, label, kname, sfx)
             try:
@@ -84,6 +253,8 @@ def run_cfg(chk, facts, cfg):
                         probs.append('upper bound is not centre + span with the signed span')
                 chk.ob('%s:signed-formula:%s:%s%s' % (PID, label, kname, sfx), 'E4', '%s(%s): bounds are centre -/+ span with span odd in z (premise of "a higher level gives a wider interval")' % (label, kname),
                        not probs, '; '.join(probs), where)
+                if label != 'ci_z_normal':
+                    n_thm += wilson_theorems(chk, nf, label, sfx, where, kind, kname, z, lo1, hi1)
             except (Unsupported, NotReal) as e:
                 chk.ob('%s:signed-formula:%s:%s%s' % (PID, label, kname, sfx), 'E4', label, None, 'undecided: %s' % e, where)
         if label != 'ci_z_normal':
@@ -98,8 +269,9 @@ def run_cfg(chk, facts, cfg):
                 chk.ob('%s:score-roots:%s%s' % (PID, label, sfx), 'E4', label, None, 'undecided: %s' % e, where)
     if cfg == 'default':
         chk.floor('mirror-identities', n_ok, 9)
+        chk.floor('theorem-clauses', n_thm, 26)
     chk.rules.append('E7-substitution: k -> n-k on the real-mode summaries, identity by normal form')
-    chk.notes.append('monotone in k, narrower with n, wider with the level, bounds in [0,1], midpoint between k/n and 1/2: theorems about the formula pinned by the score-root identity; not decided')
+    chk.notes.append('monotone in k is decided through its implicit-function premises (root of the score polynomial, side of k/n = side of the vertex); the induction from db/dk >= 0 on real k to integer steps is the cited argument')
 
 
 ASSUMPTIONS = ['floats as reals; admissible domain of C02; level in (0,1)']
